@@ -53,6 +53,9 @@
 -/
 import JdProofs.MergeProofs
 import JdProofs.MergeSetModes
+import JdProofs.MergePrecision
+import JdProofs.KeysMergeB
+import JdProofs.KeysMerge
 
 namespace Jd.Props.C11
 open Jd Jd.Spec Jd.Merge
@@ -263,5 +266,36 @@ example (F : FloatEq0) (L : FloatLaws) :
       equals [.mset, .merge] (mergePatch MSet.Example.exA m) MSet.Example.exB = true ∧
       equivB [.mset, .merge] (mergePatch MSet.Example.exA m) MSet.Example.exB = true :=
   MSet.Example.ex_mset F L
+
+/-! ## RFC 7386 output with a Precision option (list reading) -/
+
+/-- **C11 with any non-negative Precision**: for null-free documents whose merge diff is not empty (or
+    `a` an object), the rendered merge document applied to `a` by the RFC 7386 pseudocode yields a document
+    that `Equals` `b` under the options. "Differ" has to be read as "the diff is not empty": `[1]` vs
+    `[1.00001]` under Precision(0.01) are Equal, the patch is `{}` and `MergePatch([1], {}) = {}`
+    (`MP.Witness.render_within_eps_array`). -/
+theorem merge_render_correct_precision (L : FloatLaws) (o : Opts) (hm : isMerge o = true)
+    (ho : dispatchTag o = .list) (hp : Jd.Spec.nonnegBits (precOf o) = true) (M : Jd.DPL.PrecMono o)
+    (a b : Json) (haw : a.wf = true) (har : a.rawDoc = true)
+    (hbw : b.wf = true) (hbr : b.rawDoc = true) (hbn : b.nullFree = true)
+    (hbv : Jd.Merge.objVoidFree b = true) (hbf : b.finiteNums = true)
+    (hne : diffM o a b ≠ [] ∨ a.isObj = true) :
+    ∃ m, Jd.renderMergeDoc (diffM o a b) = .ok m ∧
+      equals o (Jd.Spec.mergePatch a m) b = true ∧ equivB o (Jd.Spec.mergePatch a m) b = true :=
+  Jd.MP.merge_render_correct_precision_gen L o hm ho hp M a b haw har hbw hbr hbn hbv hbf hne
+
+/-! ## SetKeys + MERGE (see JdProps/C01.lean for the class `KM.clash`) -/
+
+/-- **C11, SetKeys + MERGE**: without a clash the rendered merge document applied to `a` by RFC 7386 is `b`
+    under the set reading; `RenderMerge` succeeds iff there is no clash (`KM.render_ok_iff_noclash`) -/
+theorem merge_render_correct_setkeys_noclash (F : FloatEq0) (L : FloatLaws) (o : Opts)
+    (hmg : isMerge o = true) (hd : dispatchTag o = .set) (hp : precOf o = 0) (a b : Json)
+    (ha : a.setDoc = true) (hb : b.setDoc = true)
+    (HF : HashFaithful o (subterms a ++ subterms b))
+    (hbn : b.nullFree = true) (hbv : Jd.Merge.objVoidFree b = true) (hc : Jd.KM.clash o a b = false)
+    (hne : equals o a b = false) :
+    ∃ m, renderMergeDoc (diffM o a b) = .ok m ∧
+      equals o (mergePatch a m) b = true ∧ equivB o (mergePatch a m) b = true :=
+  Jd.KM.merge_render_correct_setkeys_noclash F o hmg hd hp a b ha hb HF L hbn hbv hc hne
 
 end Jd.Props.C11
